@@ -86,7 +86,10 @@ pub enum Ev {
     SetLen { ino: Ino, len: u64 },
     /// truncation by open(O_TRUNC) (no background sync point)
     OpenTrunc { ino: Ino },
-    SyncFile(Ino),
+    /// data sync of a file; carries the content at that moment
+    SyncFile(Ino, Vec<u8>),
+    /// an object moved to another directory
+    MovedAcross { ino: Ino, from_dir: Ino, from_name: String, to_dir: Ino },
     SyncDir(Ino),
 }
 
@@ -371,7 +374,8 @@ impl Tree {
                 Expect::Ok(Val::Unit)
             }
             Step::SyncAll | Step::SyncData => {
-                self.events.push(Ev::SyncFile(h.ino));
+                let snap = self.file(h.ino).clone();
+                self.events.push(Ev::SyncFile(h.ino, snap));
                 Expect::Ok(Val::Unit)
             }
             Step::Len => Expect::Ok(Val::Count(self.file(h.ino).len() as u64)),
@@ -590,6 +594,14 @@ impl Tree {
         let (ad, aname) = self.lookup_parent(a).expect("parent of existing");
         self.dir_mut(ad).remove(&aname);
         self.dir_mut(bd).insert(bname, src);
+        if ad != bd {
+            self.events.push(Ev::MovedAcross {
+                ino: src,
+                from_dir: ad,
+                from_name: aname,
+                to_dir: bd,
+            });
+        }
         Expect::Ok(Val::Unit)
     }
 
